@@ -65,6 +65,7 @@ def judge(run, n, f, batch, tconn, behs, hosts):
     abort_reading = None  # set of hosts that were reading when the aborting handler took thd_mutex
     cancel_seen = False
     cancel_connecting = set()
+    cancel_new = set()        # targets that had no thread when ^Z cancelled: they must never be started
     canceled_new = set()  # targets that had no thread when the cancel happened
     fwd = {}              # host -> signals forwarded by S0
     s_pending = None      # what the handler is doing: 'abort' | 'list' | 'cancel'
@@ -107,6 +108,8 @@ def judge(run, n, f, batch, tconn, behs, hosts):
             elif fl[1] == "m0" and s_pending == "cancel":
                 cancel_seen = True
                 cancel_connecting |= connecting      # these may come back empty-handed: they were still connecting
+                started_hosts = set(wid_host.get(w, -1) for w in created)
+                cancel_new |= set(range(n)) - started_hosts if all(w in wid_host for w in created) else set()
             elif s_pending not in ("abort", "list", "cancel"):
                 return "the signals thread took a mutex although no handler action was due (%s)" % s_pending
         elif k == "RSIGNAL" and who == "S0":
@@ -115,6 +118,8 @@ def judge(run, n, f, batch, tconn, behs, hosts):
             if b"to cancel pending threads" in vlib.unhex(fl[2]):
                 last_intr = clock        # *last_intrp = time(NULL) follows the second notice
             listed.append(vlib.unhex(fl[2]))
+        elif k == "FPUTS" and who == "S0" and fl[1] == "err" and s_pending == "abort" and b"one more within" in vlib.unhex(fl[2]):
+            return "an interrupt that must abort (batch mode, or a second ^C within a second of the first) was only reported"
         elif k == "UNLOCK" and who == "S0" and fl[1] == "m1" and s_pending == "list" and expect_list is not None:
             reading, connecting = expect_list
             txt = b"".join(listed)
@@ -158,6 +163,8 @@ def judge(run, n, f, batch, tconn, behs, hosts):
             got.setdefault(lab.decode(), []).append(body)
     for i, h in enumerate(hosts):
         c, d, k = run.hoststats.get("h%d" % i, (0, 0, 0))
+        if i in cancel_new and c != 0:
+            return "^C ^Z cancelled h%d before it was started, yet its command was started afterwards" % i
         if cancel_seen:
             if c > 1 or d > 1 or c != d:
                 return "after ^C ^Z: target h%d started %d times, torn down %d times" % (i, c, d)
